@@ -1,6 +1,7 @@
 """C11 — all replicas of a board agree with the table manager."""
 import json
 import random
+import re
 
 import common
 
@@ -261,6 +262,47 @@ def bundled_session(ctx, rng, kind=None):
                 fail('client-play-replica-' + badk[0], {'seat': p, 'board': k, 'fields': badk,
                                                         'client': {x: state[x] for x in badk if x != 'history'},
                                                         'table_manager': {x: wantst[x] for x in badk if x != 'history'}})
+    # the REACTIVE model of the bundled client (Model/ClientThread.lean: own auction and play replicas, parsing of every
+    # relay, decisions of the systems as oracles) fed what the REAL server sent on the connection must perform the
+    # operations the REAL Client performed
+    import session_check as SC
+    driver = common.ModelDriver()
+    by_client = {c[0]: c for c in r.conns}
+    toks = SC.thread_tokens(r, r.qmap)
+    ops, seats = [], []
+    for p in SEATS:
+        conn = by_client.get(f'client-{p}')
+        if conn is None:
+            continue
+        s2c = SC.stream_messages(conn[1])[1:]                 # after "<Seat> <team> seated"
+        own_calls, own_cards = [], []
+        for h in SC.stream_messages(conn[2])[2:]:              # after the request and "ready for teams"
+            text = SC.hex_text(h) if hasattr(SC, 'hex_text') else (bytes.fromhex(h).decode('utf-8') if h != '-' else '')
+            low = text.lower()
+            if ' ready ' in low:
+                continue
+            m = re.fullmatch(r'(\w+) (passes|doubles|redoubles|bids (\d)(c|d|h|s|nt))', low)
+            if m:
+                own_calls.append({'passes': 35, 'doubles': 36, 'redoubles': 37}.get(m.group(2), None)
+                                 if not m.group(3) else (int(m.group(3)) - 1) * 5 + ['c', 'd', 'h', 's', 'nt'].index(m.group(4)))
+                continue
+            m = re.fullmatch(r'(\w+) plays (\w)(\w)', low)
+            if m:
+                own_cards.append('cdhs'.index(m.group(3)) * 13 + '23456789tjqka'.index(m.group(2)))
+        ops.append(f'X.clientreact {p} {",".join(map(str, own_calls)) or "-"} {",".join(map(str, own_cards)) or "-"} '
+                   f'{",".join(s2c) or "-"}')
+        seats.append(p)
+    for p, line in zip(seats, driver.run(ops) if ops else []):
+        exp = [x for x in line.split(' ') if x]
+        got = toks.get('client' + p, [])
+        ctx.count('client_reactive_comparisons')
+        if got != exp:
+            i = next((i for i, (a, b) in enumerate(zip(got, exp)) if a != b), min(len(got), len(exp)))
+            fails.append({'key': 'client-ops', 'kind': 'broken-correspondence', 'scenario': sc, 'systems': kind, 'policy': pdesc,
+                          'diff': {'what': 'client-ops', 'seat': p, 'index': i,
+                                   'impl': SC.decode_tok(got[i]) if i < len(got) else None,
+                                   'model': SC.decode_tok(exp[i]) if i < len(exp) else (line if line == 'RAISES' else None),
+                                   'n_impl': len(got), 'n_model': len(exp)}})
     ctx.distinct.add(hash((json.dumps(sc, sort_keys=True), kind, tuple(seeds), json.dumps(pdesc, sort_keys=True))))
     return fails
 
